@@ -10,7 +10,7 @@ import z3
 from symex.case import Case
 from symex.values import SEnum, SInt
 from entity_query_language import (an, entity, set_of, let, symbolic_mode, rule_mode, infer, symbol, not_, in_, contains,
-                                   flatten, From, and_)
+                                   flatten, concatenate, From, and_)
 
 ALPHA = [0, 1, "", "a", (), (1,), None, False, True]
 CONTAINERS = [(), (0,), (1,), ("",), (0, 1)]
@@ -23,7 +23,7 @@ ASSUMPTIONS = [
     "0 == False and 1 == True are Python facts and are part of the reference; what must not matter is truthiness of a value",
     "returned values are compared by identity (symbolic run) / by type and equality (plain replay)",
 ]
-BOUNDS = {"quick": dict(domain_objects=2, alphabet=len(ALPHA)), "thorough": dict(domain_objects=3, alphabet=len(ALPHA))}
+BOUNDS = {"quick": dict(domain_objects=2, alphabet=len(ALPHA), bare_values="flatten / concatenate of a non-collection attribute"), "thorough": dict(domain_objects=3, alphabet=len(ALPHA))}
 LIMITS = {"quick": dict(max_paths=20000, max_wall=120), "thorough": dict(max_paths=200000, max_wall=600)}
 WALL_BUDGET = {"quick": 420, "thorough": 3000}
 
@@ -115,6 +115,9 @@ class C19(Case):
                     o.items = [ALPHA[mk.choice("o%d.e%d" % (i, j), len(ALPHA))] for j in range(2)]
                 else:
                     o.items = [mk.enum("o%d.e%d" % (i, j), ALPHA) for j in range(2)]
+            if sp["kind"] in ("flatten_scalar", "concat_scalar"):
+                # the attribute is NOT a collection but a bare value (possibly None / 0 / False / ""): one element
+                o.items = ALPHA[mk.choice("o%d.items" % i, len(ALPHA))]
             objs.append(o)
         data = dict(objs=objs, res=None)
         k = sp["kind"]
@@ -159,8 +162,11 @@ class C19(Case):
                     elif k == "flatten":
                         e = flatten(x.items)
                         q = an(set_of([x, e])) if sp.get("with_parent") else an(entity(e))
-                    elif k == "flatten_cmp":
-                        raise NotImplementedError
+                    elif k == "flatten_scalar":
+                        e = flatten(x.items)
+                        q = an(set_of([x, e])) if sp.get("with_parent") else an(entity(e))
+                    elif k == "concat_scalar":
+                        q = an(entity(concatenate(x.items)))
                     elif k == "or_contains":   # the false row of a membership test in an empty container must still reach the other disjunct
                         q = an(entity(x, contains(x.c, ve) | (x.n > 0)))
                     elif k == "or_and_contains":
@@ -221,7 +227,7 @@ class C19(Case):
             elif k == "cmp_cross":
                 vals = list(r.values()) if hasattr(r, "values") else []
                 out.append([self._idx(v.value, objs) for v in r.data.values()])
-            elif k in ("select_entity", "flatten"):
+            elif k in ("select_entity", "flatten", "flatten_scalar", "concat_scalar"):
                 out.append("*")
             else:
                 out.append(self._idx(r, objs))
@@ -323,6 +329,23 @@ class C19(Case):
             obs.append(("one_row_per_element", alg.const(len(got) == len(exp))))
             for n_, ((gi, gv), (ei, ev)) in enumerate(zip(got, exp)):
                 obs.append(("element_%d" % n_, alg.and_(alg.const(gi is None or gi == ei), same_value(alg, gv, ev))))
+        elif k in ("flatten_scalar", "concat_scalar"):
+            def elements(v):
+                return list(v) if isinstance(v, tuple) else [v]     # str is a value, not a collection, for the library
+            exp = [(i, e) for i, o in enumerate(objs) for e in elements(o.items)]
+            if k == "concat_scalar":
+                obs.append(("exactly_one_value_and_it_is_a_list", alg.const(len(res) == 1 and isinstance(res[0], list))))
+                got = [(None, e) for e in (res[0] if len(res) == 1 and isinstance(res[0], list) else [])]
+            elif sp.get("with_parent"):
+                got = []
+                for r in res:
+                    vals = list(r.data.values())
+                    got.append((self._idx(vals[0].value, objs), vals[1].value))
+            else:
+                got = [(None, r) for r in res]
+            obs.append(("one_element_per_bare_value_and_per_member:%d_of_%d" % (len(got), len(exp)), alg.const(len(got) == len(exp))))
+            for n_, ((gi, gv), (ei, ev)) in enumerate(zip(got, exp)):
+                obs.append(("element_%d" % n_, alg.const((gi is None or gi == ei) and type(gv) is type(ev) and gv == ev)))
         elif k == "head":
             got = [(self._idx(getattr(r, "src", None), objs), r) for r in res]
             idx = [i for i, _ in got]
@@ -385,6 +408,9 @@ def shapes(tier, seed):
         out.append(dict(kind="kw", lit=li, n=n))
     out.append(dict(kind="flatten", n=n))
     out.append(dict(kind="flatten", with_parent=True, n=n))
+    out.append(dict(kind="flatten_scalar", n=2))
+    out.append(dict(kind="flatten_scalar", with_parent=True, n=2))
+    out.append(dict(kind="concat_scalar", n=2))
     return out
 
 
